@@ -11,6 +11,7 @@
 //
 //	new abq|lbq <capacity>
 //	call <tid> enq <v> <ctx> | call <tid> deq <ctx> | call <tid> len | call <tid> asslice | call <tid> pause <us>
+//	call <tid> cancel <tid2>      (cancel the context of the call thread tid2 has in flight, now)
 //	go <reps> lin|big|seq|snap
 //
 // <ctx> = none (background; cancelled by the watchdog only when the call cannot proceed)
@@ -260,6 +261,49 @@ func (g *gen) wake() {
 	g.out.Line("go %d lin", r.Range(1, 3))
 }
 
+// directed: a woken waiter is cancelled right after the wake-up (C09: "a cancellation injected at every
+// synchronisation point a call passes through" - here between the broadcast that wakes it and its
+// re-check under the re-acquired lock).  Block w waiters, perform the waking operation, cancel the
+// waiter immediately; the fill/drain probe then checks that the queue still accepts and delivers.
+func (g *gen) wakeCancel() {
+	r := g.r
+	kind := vlib.Pick(r, []string{"lbq", "lbq", "abq"})
+	c := vlib.Pick(r, []int{1, 1, 2, 3})
+	g.out.Line("new %s %d", kind, c)
+	w := r.Range(1, 4)
+	waker := w
+	if r.Bool() {
+		for t := 0; t < w; t++ {
+			g.out.Line("call %d deq %s", t, vlib.Pick(r, []string{"none", "none", "to:2000000"}))
+		}
+		g.out.Line("call %d pause %d", waker, r.Range(300, 2000))
+		for k := 0; k < w; k++ {
+			g.out.Line("call %d enq %d none", waker, (waker+1)*1000+k)
+			g.out.Line("call %d cancel %d", waker, k)
+			if r.Chance(30) {
+				g.out.Line("call %d cancel %d", waker, r.Intn(w))
+			}
+		}
+	} else {
+		for i := 0; i < c; i++ {
+			g.out.Line("call %d enq %d none", waker, (waker+1)*1000+i)
+		}
+		for t := 0; t < w; t++ {
+			g.out.Line("call %d pause %d", t, r.Range(300, 600))
+			g.out.Line("call %d enq %d %s", t, (t+1)*1000, vlib.Pick(r, []string{"none", "none", "to:2000000"}))
+		}
+		g.out.Line("call %d pause %d", waker, r.Range(800, 2500))
+		for k := 0; k < w; k++ {
+			g.out.Line("call %d deq none", waker)
+			g.out.Line("call %d cancel %d", waker, k)
+			if r.Chance(30) {
+				g.out.Line("call %d cancel %d", waker, r.Intn(w))
+			}
+		}
+	}
+	g.out.Line("go %d lin", r.Range(2, 4))
+}
+
 // directed: a storm of cancellations on a full / empty queue, then the fill/drain check
 func (g *gen) cancelStorm() {
 	r := g.r
@@ -328,6 +372,11 @@ func corpus(out *vlib.Out) {
 		"new abq 1\ncall 0 deq none\ncall 1 pause 2000\ncall 1 enq 2007 none\ngo 3 lin",
 		"new lbq 1\ncall 4 enq 5001 none\ncall 0 pause 300\ncall 0 enq 1002 none\ncall 1 pause 300\ncall 1 enq 2003 none\ncall 2 pause 300\ncall 2 enq 3004 none\ncall 4 pause 1500\ncall 4 deq none\ncall 4 deq none\ncall 4 deq none\ngo 3 lin",
 		"new abq 1\ncall 4 enq 5001 none\ncall 0 pause 300\ncall 0 enq 1002 none\ncall 1 pause 300\ncall 1 enq 2003 none\ncall 2 pause 300\ncall 2 enq 3004 none\ncall 4 pause 1500\ncall 4 deq none\ncall 4 deq none\ncall 4 deq none\ngo 3 lin",
+		// a woken waiter cancelled right after the wake-up, then the queue must still accept / deliver
+		"new lbq 1\ncall 0 deq none\ncall 1 pause 1000\ncall 1 enq 2001 none\ncall 1 cancel 0\ngo 4 lin",
+		"new lbq 1\ncall 1 enq 2001 none\ncall 0 pause 300\ncall 0 enq 1001 none\ncall 1 pause 1200\ncall 1 deq none\ncall 1 cancel 0\ngo 4 lin",
+		"new abq 1\ncall 0 deq none\ncall 1 pause 1000\ncall 1 enq 2001 none\ncall 1 cancel 0\ngo 4 lin",
+		"new abq 1\ncall 1 enq 2001 none\ncall 0 pause 300\ncall 0 enq 1001 none\ncall 1 pause 1200\ncall 1 deq none\ncall 1 cancel 0\ngo 4 lin",
 		// cancellations on a full queue, then capacity must be intact
 		"new abq 2\ncall 0 enq 1001 none\ncall 0 enq 1002 none\ncall 1 pause 300\ncall 1 enq 2003 to:100\ncall 2 pause 300\ncall 2 enq 3004 cn:50\ncall 3 pause 300\ncall 3 enq 4005 to:0\ngo 3 lin",
 		"new lbq 2\ncall 0 enq 1001 none\ncall 0 enq 1002 none\ncall 1 pause 300\ncall 1 enq 2003 to:100\ncall 2 pause 300\ncall 2 enq 3004 cn:50\ncall 3 pause 300\ncall 3 enq 4005 to:0\ngo 3 lin",
@@ -343,14 +392,19 @@ func generate(tier string, out *vlib.Out) {
 	g := &gen{r: vlib.NewRng(vlib.Seed()), out: out}
 	corpus(out)
 	nlin, nbig, nseq, nwake, nstorm, nsnap := 260, 10, 40, 30, 30, 30
+	nwc := 30
 	if tier == "thorough" {
 		nlin, nbig, nseq, nwake, nstorm, nsnap = 4000, 120, 400, 400, 400, 400
+		nwc = 400
 	}
 	for i := 0; i < nseq; i++ {
 		g.seq()
 	}
 	for i := 0; i < nwake; i++ {
 		g.wake()
+	}
+	for i := 0; i < nwc; i++ {
+		g.wakeCancel()
 	}
 	for i := 0; i < nstorm; i++ {
 		g.cancelStorm()
@@ -396,8 +450,8 @@ func parseCall(w []string, line string) callSpec {
 		parseCtx(w[4])
 	case "deq":
 		parseCtx(w[3])
-	case "pause":
-		c.us, _ = strconv.Atoi(w[3])
+	case "pause", "cancel":
+		c.us, _ = strconv.Atoi(w[3]) // microseconds / target thread
 	}
 	return c
 }
@@ -436,6 +490,8 @@ type stats struct {
 	AcquireCtx int            `json:"ctx_errors_from_acquire"`
 	Hangs      int            `json:"hangs"`
 	Stuck      int            `json:"stuck"`
+	Wedged     int            `json:"wedged"`
+	Stopped    bool           `json:"stopped_early"`
 	WdCancels  int            `json:"watchdog_cancels"`
 	MaxLenSeen int            `json:"max_len_seen"`
 	Cases      int            `json:"cases"`
@@ -487,7 +543,9 @@ func freshLen(q bq, d time.Duration) int {
 	}
 }
 
-func (sc *scenario) run(mode string, st *stats) (string, bool) {
+// run executes the scenario once on a fresh queue.  Returns the observation, whether the scenario
+// blocked for the bound (slow), and whether the queue is wedged / a call hung (fatal: the run stops).
+func (sc *scenario) run(mode string, st *stats) (string, bool, bool) {
 	bound := curBound()
 	q := mkq(sc.kind, sc.cap)
 	bounded := sc.cap > 0
@@ -528,12 +586,15 @@ func (sc *scenario) run(mode string, st *stats) (string, bool) {
 	minLen.Store(1 << 30)
 	maxLen.Store(-(1 << 30))
 	var stopSampler atomic.Bool
+	var beat atomic.Int64 // unix nanos of the sampler's last completed call into the queue
+	beat.Store(time.Now().UnixNano())
 	samplerDone := make(chan struct{})
 	go func() {
 		defer close(samplerDone)
 		defer func() { recover() }()
 		for i := 0; !stopSampler.Load(); i++ {
 			n := int64(q.Len())
+			beat.Store(time.Now().UnixNano())
 			lastLen.Store(n)
 			if n > maxLen.Load() {
 				maxLen.Store(n)
@@ -544,6 +605,7 @@ func (sc *scenario) run(mode string, st *stats) (string, bool) {
 			samples.Add(1)
 			if i%8 == 0 || mode == "snap" {
 				s := q.AsSlice()
+				beat.Store(time.Now().UnixNano())
 				if int64(len(s)) > maxSlice.Load() {
 					maxSlice.Store(int64(len(s)))
 				}
@@ -582,6 +644,16 @@ func (sc *scenario) run(mode string, st *stats) (string, bool) {
 						runtime.Gosched()
 					} else {
 						time.Sleep(time.Duration(c.us) * time.Microsecond)
+					}
+					continue
+				}
+				if c.op == "cancel" {
+					// cancel the call another thread has in flight, right now (e.g. immediately after
+					// the operation that woke it)
+					if c.us >= 0 && c.us < nth {
+						if f := inflight[c.us].Load(); f != nil {
+							f.cancel()
+						}
 					}
 					continue
 				}
@@ -672,7 +744,7 @@ func (sc *scenario) run(mode string, st *stats) (string, bool) {
 	close(start)
 
 	// watchdog
-	var hang, stuck []string
+	var hang, stuck, wedged []string
 	wdCancels := 0
 	lastP := int64(-1)
 	lastChange := time.Now()
@@ -684,10 +756,20 @@ func (sc *scenario) run(mode string, st *stats) (string, bool) {
 				all = false
 			}
 		}
-		if all || len(hang) > 0 {
+		if all || len(hang) > 0 || len(wedged) > 0 {
 			break
 		}
 		now := time.Now()
+		if now.Sub(time.Unix(0, beat.Load())) > bound {
+			// Len()/AsSlice() hold the read lock for microseconds: the sampler not getting an answer for
+			// the whole bound means the queue's lock is never released any more
+			// (confirmed by a fresh probe, in case the sampler goroutine itself was starved)
+			if freshLen(q, bound/4+200*time.Millisecond) < 0 {
+				wedged = append(wedged, "sampler")
+				break
+			}
+			beat.Store(time.Now().UnixNano())
+		}
 		if p := progress.Load(); p != lastP {
 			lastP, lastChange = p, now
 			sleep = 200 * time.Microsecond
@@ -702,6 +784,9 @@ func (sc *scenario) run(mode string, st *stats) (string, bool) {
 					f.endedSeen = now
 				} else if now.Sub(f.endedSeen) > bound {
 					hang = append(hang, fmt.Sprintf("%d:%s", t, f.c.op))
+					if freshLen(q, bound/4+200*time.Millisecond) < 0 {
+						wedged = append(wedged, "len")
+					}
 				}
 				continue
 			}
@@ -724,11 +809,15 @@ func (sc *scenario) run(mode string, st *stats) (string, bool) {
 					// blocked although its enabling condition has held for `bound`.  Before reporting a lost
 					// wake-up, confirm with a fresh Len() (the sampler's value could be stale under load) and
 					// give the call one more grace period.
-					fresh := freshLen(q, bound)
+					fresh := freshLen(q, bound/4+200*time.Millisecond)
+					if fresh < 0 {
+						wedged = append(wedged, "len")
+						break
+					}
 					still := fresh >= 0 && ((f.c.op == "enq" && (!bounded || fresh < sc.cap)) || (f.c.op == "deq" && fresh > 0))
 					if still {
 						time.Sleep(200 * time.Millisecond)
-						fresh2 := freshLen(q, bound)
+						fresh2 := freshLen(q, bound/4+200*time.Millisecond)
 						still = inflight[t].Load() == f && f.ctx.Err() == nil &&
 							((f.c.op == "enq" && (!bounded || (fresh2 >= 0 && fresh2 < sc.cap))) || (f.c.op == "deq" && fresh2 > 0))
 					}
@@ -754,8 +843,10 @@ func (sc *scenario) run(mode string, st *stats) (string, bool) {
 	stopSampler.Store(true)
 	select {
 	case <-samplerDone:
-	case <-time.After(bound):
-		hang = append(hang, "sampler")
+	case <-time.After(bound/4 + 500*time.Millisecond):
+		if len(wedged) == 0 {
+			wedged = append(wedged, "sampler")
+		}
 	}
 	st.Samples += samples.Load()
 	st.WdCancels += wdCancels
@@ -782,113 +873,143 @@ func (sc *scenario) run(mode string, st *stats) (string, bool) {
 		}
 		return strings.Join(xs, ",")
 	}
-	if len(hang) > 0 {
-		fmt.Fprintf(&b, " final=skip wb=skip fill=skip over=skip drain=skip under=skip stuck=%s hang=%s recheck=%d", dash(stuck), dash(hang), recheck.Load())
+	if len(hang) > 0 || len(wedged) > 0 {
+		fmt.Fprintf(&b, " final=skip wb=skip fill=skip over=skip drain=skip under=skip stuck=%s hang=%s wedged=%s recheck=%d", dash(stuck), dash(hang), dash(wedged), recheck.Load())
 		detections.Add(1)
-		return b.String(), true
+		st.Wedged += len(wedged)
+		return b.String(), true, true
 	}
 	// quiescence: contents, white-box state, then the fill/drain check
-	fillErr, drainErr := "", ""
-	pp := vlib.Catch(func() {
-		final := q.AsSlice()
-		fmt.Fprintf(&b, " final=%s flen=%d", vlib.Ints(final), q.Len())
-		switch x := q.(type) {
-		case *queue.ConcurrentArrayBlockingQueue[int]:
-			h, t, c, ef, df, data := x.VerifABQState()
-			if h < 0 {
-				fmt.Fprintf(&b, " wb=skip") // black-box stub hooks
-			} else {
-				fmt.Fprintf(&b, " wb=%d:%d:%d:%d:%d:%s", h, t, c, ef, df, vlib.Ints(data))
-			}
-		case *queue.ConcurrentLinkedBlockingQueue[int]:
-			ms, l := x.VerifLBQState()
-			if l < 0 {
-				fmt.Fprintf(&b, " wb=skip")
-			} else {
-				fmt.Fprintf(&b, " wb=%d:%d", ms, l)
-			}
-		}
-		long := func() (context.Context, context.CancelFunc) { return context.WithTimeout(context.Background(), bound) }
-		short := func() (context.Context, context.CancelFunc) {
-			return context.WithTimeout(context.Background(), 2*time.Millisecond)
-		}
-		want := 3
-		if bounded {
-			want = sc.cap - len(final)
-		}
-		fill := 0
-		for i := 0; i < want; i++ {
-			ctx, cancel := long()
-			err := q.Enqueue(ctx, 900001+i)
-			cancel()
-			if err != nil {
-				if isCtx(err) {
-					fillErr = "ctx"
+	// Everything below calls into the queue again: it runs under a deadline of its own, so that a queue
+	// whose lock was leaked by the scenario (calls block forever, ignoring their contexts) costs
+	// seconds, not the pipeline's timeout.  At quiescence the whole phase takes milliseconds; with a
+	// leaked permit at most one fill and one drain call block for `bound` before their contexts end.
+	type phase struct {
+		obs               string
+		pp                string
+		fillErr, drainErr string
+	}
+	var stage atomic.Value
+	stage.Store("asslice")
+	phaseDone := make(chan phase, 1)
+	go func() {
+		var pb strings.Builder
+		fillErr, drainErr := "", ""
+		pp := vlib.Catch(func() {
+			stage.Store("asslice")
+			final := q.AsSlice()
+			fmt.Fprintf(&pb, " final=%s flen=%d", vlib.Ints(final), q.Len())
+			switch x := q.(type) {
+			case *queue.ConcurrentArrayBlockingQueue[int]:
+				h, t, c, ef, df, data := x.VerifABQState()
+				if h < 0 {
+					fmt.Fprintf(&pb, " wb=skip") // black-box stub hooks
 				} else {
-					fillErr = "err"
+					fmt.Fprintf(&pb, " wb=%d:%d:%d:%d:%d:%s", h, t, c, ef, df, vlib.Ints(data))
 				}
-				break
+			case *queue.ConcurrentLinkedBlockingQueue[int]:
+				ms, l := x.VerifLBQState()
+				if l < 0 {
+					fmt.Fprintf(&pb, " wb=skip")
+				} else {
+					fmt.Fprintf(&pb, " wb=%d:%d", ms, l)
+				}
 			}
-			fill++
-		}
-		over := "-"
-		if bounded && fillErr == "" {
-			ctx, cancel := short()
-			err := q.Enqueue(ctx, 999999)
-			cancel()
-			switch {
-			case err == nil:
-				over = "ok"
-			case isCtx(err):
-				over = "ctx"
-			default:
-				over = "err"
+			stage.Store("fill")
+			long := func() (context.Context, context.CancelFunc) { return context.WithTimeout(context.Background(), bound) }
+			short := func() (context.Context, context.CancelFunc) {
+				return context.WithTimeout(context.Background(), 2*time.Millisecond)
 			}
-		}
-		var drained []int
-		if fillErr == "" && over != "ok" {
-			n := len(final) + fill
-			for i := 0; i < n; i++ {
+			want := 3
+			if bounded {
+				want = sc.cap - len(final)
+			}
+			fill := 0
+			for i := 0; i < want; i++ {
 				ctx, cancel := long()
-				v, err := q.Dequeue(ctx)
+				err := q.Enqueue(ctx, 900001+i)
 				cancel()
 				if err != nil {
 					if isCtx(err) {
-						drainErr = "ctx"
+						fillErr = "ctx"
 					} else {
-						drainErr = "err"
+						fillErr = "err"
 					}
 					break
 				}
-				drained = append(drained, v)
+				fill++
 			}
-		}
-		under := "-"
-		if fillErr == "" && drainErr == "" && over != "ok" {
-			ctx, cancel := short()
-			v, err := q.Dequeue(ctx)
-			cancel()
-			switch {
-			case err == nil:
-				under = "v." + strconv.Itoa(v)
-			case isCtx(err):
-				under = "ctx"
-			default:
-				under = "err"
+			over := "-"
+			if bounded && fillErr == "" {
+				ctx, cancel := short()
+				err := q.Enqueue(ctx, 999999)
+				cancel()
+				switch {
+				case err == nil:
+					over = "ok"
+				case isCtx(err):
+					over = "ctx"
+				default:
+					over = "err"
+				}
 			}
-		}
-		fmt.Fprintf(&b, " fill=%d%s over=%s drain=%s%s under=%s stuck=%s hang=- recheck=%d", fill, fillErr, over, vlib.Ints(drained), drainErr, under, dash(stuck), recheck.Load())
-	})
+			var drained []int
+			if fillErr == "" && over != "ok" {
+				n := len(final) + fill
+				for i := 0; i < n; i++ {
+					ctx, cancel := long()
+					v, err := q.Dequeue(ctx)
+					cancel()
+					if err != nil {
+						if isCtx(err) {
+							drainErr = "ctx"
+						} else {
+							drainErr = "err"
+						}
+						break
+					}
+					drained = append(drained, v)
+				}
+			}
+			under := "-"
+			if fillErr == "" && drainErr == "" && over != "ok" {
+				ctx, cancel := short()
+				v, err := q.Dequeue(ctx)
+				cancel()
+				switch {
+				case err == nil:
+					under = "v." + strconv.Itoa(v)
+				case isCtx(err):
+					under = "ctx"
+				default:
+					under = "err"
+				}
+			}
+			fmt.Fprintf(&pb, " fill=%d%s over=%s drain=%s%s under=%s stuck=%s hang=- wedged=- recheck=%d", fill, fillErr, over, vlib.Ints(drained), drainErr, under, dash(stuck), recheck.Load())
+		})
+		phaseDone <- phase{pb.String(), pp, fillErr, drainErr}
+	}()
+	var ph phase
+	select {
+	case ph = <-phaseDone:
+	case <-time.After(2*bound + time.Second):
+		fmt.Fprintf(&b, " final=skip wb=skip fill=skip over=skip drain=skip under=skip stuck=%s hang=- wedged=probe:%s recheck=%d", dash(stuck), stage.Load().(string), recheck.Load())
+		detections.Add(1)
+		st.Wedged++
+		return b.String(), true, true
+	}
+	b.WriteString(ph.obs)
+	pp, fillErr, drainErr := ph.pp, ph.fillErr, ph.drainErr
 	if pp != "" {
 		fmt.Fprintf(&b, " postpanic=%s", pp)
 		detections.Add(1)
-		return b.String(), true
+		return b.String(), true, false
 	}
 	slow := len(stuck) > 0 || fillErr != "" || drainErr != ""
 	if slow {
 		detections.Add(1)
 	}
-	return b.String(), slow
+	return b.String(), slow, false
 }
 
 func run(ops []string, out *vlib.Out, st *stats) {
@@ -911,7 +1032,7 @@ func run(ops []string, out *vlib.Out, st *stats) {
 			c := parseCall(w, line)
 			sc.calls = append(sc.calls, c)
 			st.Ops[c.op]++
-			if c.op != "pause" {
+			if c.op != "pause" && c.op != "cancel" {
 				st.Calls++
 			}
 			out.Line("%s => ok", line)
@@ -934,7 +1055,15 @@ func run(ops []string, out *vlib.Out, st *stats) {
 			}
 			for i := 0; i < reps; i++ {
 				st.Scenarios[mode]++
-				obs, slow := sc.run(mode, st)
+				obs, slow, fatal := sc.run(mode, st)
+				if fatal {
+					// the queue under test is wedged / a call never returned: goroutines are stuck inside it
+					// for good.  Report this scenario and stop; the pipeline evaluates the trace so far.
+					out.Line("go 3 %s b=1000 => %s", mode, obs)
+					st.Stopped = true
+					st.Distinct = len(st.seen)
+					return
+				}
 				if slow {
 					// blocked-for-the-bound scenarios are replayed with a short bound and once
 					out.Line("go 3 %s b=1000 => %s", mode, obs)
